@@ -52,7 +52,9 @@ type c19obs struct {
 	Err       string
 }
 
-func (o c19obs) String() string { return fmt.Sprintf("cb=%v done@%d err=%s", o.Callbacks, o.DoneAt, o.Err) }
+func (o c19obs) String() string {
+	return fmt.Sprintf("cb=%v done@%d err=%s", o.Callbacks, o.DoneAt, o.Err)
+}
 
 // reference arithmetic
 func c19ref(c c19case) c19obs {
